@@ -142,8 +142,12 @@ def run(E: Engine, rep: Report, tier: str) -> dict:
     Sp = S(E, f)
     dls = [l for l in Sp.calls("add_delay") if l.fn == f.short]
     mk = [l for l in Sp.calls("make_next_pulse_slot") if l.fn == f.short]
-    if not dls or not mk:
-        raise AnalysisError("anchor: _Schedule.add_pulse no longer calls add_delay / make_next_pulse_slot")
+    if not mk:
+        raise AnalysisError("anchor: _Schedule.add_pulse no longer calls make_next_pulse_slot")
+    if not dls:
+        dls = [l for l in Sp.calls("add_delay")]  # through an extracted private helper
+    rep.check(bool(dls), "FLOW", "_Schedule.add_pulse|gap-filled-by-add_delay", "the gap before the pulse is filled by add_delay",
+              "_Schedule.add_pulse no longer fills the gap before a pulse through add_delay: add_delay is what decides how idle time is represented (in EOM mode a detuned zero-amplitude pulse, otherwise a delay slot on the current targets), so a hand-made slot leaves the EOM bookkeeping and the phase drift of that interval wrong", E.where(f))
     for l in dls:
         a = arg(l, 0, "duration")
         ok = a == sym.mk_add([("attr", mk[-1].value, "ti"), sym.mk_neg(LAST_TF)]) and arg(l, 1, "channel") == ("name", "channel")
